@@ -8,6 +8,7 @@ THEOREMS = [
     "C01.evalCond_eq_spec",
     "C01.pass_fires_iff",
     "C01.pass_eq_spec",
+    "C01.cycles_eq_spec",
     "C01.store_reads_back",
     "C01.set_reads_back",
     "C01.parenthesised_counterexample",
@@ -31,13 +32,24 @@ RULE = ("cases = corpus + N generated (rule set of 1-4 rules, fact store). Facts
         "the Lean model's prediction, and the oracle evaluates Spec.holds on each reported pre-state (previous snapshot) against the reported "
         "firing whenever the pre-state is in the domain Spec.wf, plus read-back of assignments (a Set is judged when no later action of "
         "the same rule writes under the same root and its right-hand side is a literal or it is the rule's first action) and equality of the two entry points. "
+        "Four dedicated families (N/20 cases each, N/10 of (c), after the main stream): (a) `in` against membership lists of 31..80 elements (mostly > 32; one type "
+        "or mixed; literal or held in a flat/nested fact) probed with members, plain non-members and non-members of another type with the same text "
+        "(Integer 7 / Number 7.0 / String \"7\", true / \"true\", null / \"null\"), plain, negated and under && / ||; (b) arithmetic text WITHOUT blanks "
+        "around operators (`o.price-5`, `rate*2+e-1`): names ending in e/E directly followed by an operator and a digit-initial operand, exponent numerals "
+        "(1e2, 2E1; 2.5e-3 on the right of a comparison) as controls, as assignment value, right-hand side of a field comparison and both sides of an "
+        "arithmetic comparison; (c) ONE engine object used for max_cycles 1..8 and 1..4 execute calls with self-modifying rules whose thresholds are "
+        "arithmetic over dot-less or nested facts (`q >= floor + step` ... `floor = floor + step`), the caller replacing facts between the calls (same "
+        "or new Facts object); (d) ordinary generated cases run with max_cycles 1..3 and called again after 1..3 facts were replaced. For (c)/(d) the "
+        "model runs C01.cycles per call from the current facts and the oracle judges every consideration of a rule in every cycle of every call on the "
+        "facts the implementation itself reported for that moment. "
         "non-trivial = at least one rule was judged in-domain with >= 2 leaves or a judged read-back; distinct = distinct case text.")
 TRUSTED = [
     "Lean 4.33 kernel; axioms of every property theorem within {propext, Classical.choice, Quot.sound} (audited each run)",
     "hand-written model RreModel/C01/Model.lean tied to src/engine/engine.rs, src/expression.rs, src/types.rs, src/engine/facts.rs by the correspondence check only (differential testing, whole observations compared)",
     "harness/src/bin/c01.rs, Driver/C01.lean parsing/printing glue (incl. the driver's decimal f64 reader used as FloatOps.parse), check.py diff",
     "IEEE-754 double arithmetic: the theorems are parametric in FloatOps F and never look inside a float; the driver instantiates F := Float (same hardware type as f64, fmod from libm)",
-    "the firing loop, agenda and rule attributes are C02/C03's subject: here one pass (max_cycles = 1) over rules without attributes, in insertion order",
+    "the agenda and rule attributes are C02/C03's subject: here rules without attributes, in insertion order; the cycle loop (max_cycles passes, stop after a pass without a firing) "
+    "and repeated execute calls on one engine are modelled as iteration of the one-pass model from the current facts (C01.cycles; theorem cycles_eq_spec)",
 ]
 ASSUMPTIONS = [
     "ASCII text: the code indexes expression text by bytes/chars interchangeably (multibyte input is C05's subject); trim = ASCII whitespace",
@@ -51,36 +63,45 @@ ASSUMPTIONS = [
 
 
 def _runs(obs):
-    """split an observation into its C / X / G parts"""
+    """split an observation into its C / X / G streams: tag -> list of runs (one per execute call), each a token list"""
     out, cur = {}, None
     for t in obs.split():
         if t in ("C", "X", "G"):
-            cur = t
-            out[cur] = []
-        elif cur:
-            out[cur].append(t)
+            cur = []
+            out.setdefault(t, []).append(cur)
+        elif cur is not None:
+            cur.append(t)
     return out
 
 
 def classify(case, impl, model, oracle, kind):
     if kind == "oracle":
-        return "oracle:" + oracle.replace("fail ", "").split("@")[0]
+        import re
+        # callback:call2:fires_iff@0:expected_true -> oracle:callback:later_call:fires_iff
+        return "oracle:" + re.sub(r":call\d+", ":later_call", oracle.replace("fail ", "").split("@")[0])
     ri, rm = _runs(impl), _runs(model)
     for k in ("C", "X", "G"):
-        if ri.get(k) != rm.get(k):
-            a, b = ri.get(k) or ["-"], rm.get(k) or ["-"]
-            if a[0] != b[0]:
-                return "diff:%s:status:%s/%s" % (k, a[0], b[0])
-            if a[1:4] != b[1:4]:
-                return "diff:%s:counters" % k
-            return "diff:%s:facts" % k
+        ai, am = ri.get(k) or [], rm.get(k) or []
+        if ai != am:
+            for j in range(max(len(ai), len(am))):
+                a = ai[j] if j < len(ai) else ["-"]
+                b = am[j] if j < len(am) else ["-"]
+                if a == b:
+                    continue
+                call = "" if j == 0 else ":call%d" % j
+                if a[0] != b[0]:
+                    return "diff:%s%s:status:%s/%s" % (k, call, a[0], b[0])
+                if a[1:4] != b[1:4]:
+                    return "diff:%s%s:counters" % (k, call)
+                return "diff:%s%s:facts" % (k, call)
     return "diff"
 
 
 LEVEL_TEXT = ("Lean 4 theorems (kernel-checked, unbounded: every arithmetic AST, every condition tree, every rule list, every fact store, every float "
               "structure) that on the domain Spec.wf the executable model of evaluate_conditions / evaluate_single_condition / evaluate_arithmetic_condition / "
               "evaluate_expression / execute_action computes the documented meaning Spec.holds (rightmost-operator string splitting = usual precedence and left "
-              "associativity; rfind re-split of Test-CE text; operator table; missing field = null; field-reference right-hand sides) and that assignments read back, "
+              "associativity; rfind re-split of Test-CE text; operator table; missing field = null; field-reference right-hand sides), that a whole execute call of any "
+              "max_cycles is the documented pass iterated on the current facts (cycles_eq_spec), and that assignments read back, "
               "with the excluded boundaries machine-checked by counterexample theorems; tied to the source by a correspondence check of whole observations "
               "(programmatic and GRL-parsed rules, both entry points) and by evaluating Spec.holds on the implementation's own reported pre-states.")
 LEVEL_NOTE = ("Trusted: Lean kernel + {propext, Classical.choice, Quot.sound}; hand-written model tied to the code by differential testing only; harness/driver glue; "
